@@ -94,7 +94,15 @@ class ApCorr(Corr):
             scene = A.gen_scene(rng, tie_heavy=(i % 5 == 0), n=(rng.randint(30, 120) if (tier != "quick" and i % 50 == 0) else None))
             k = rng.choice([1, 1, 2, 3])
             targets = rng.sample(A.LABELS[:4], k)
-            thresholds = [A.threshold_for(rng, mode) for _ in targets]
+            if i % 6 == 1 or i % 83 == 7 or i == 120:
+                # LONG rankings of one or two labels: >= 10 ranked (non-ignored) results; three of them 101-130 long (beyond any "top 100"), one
+                # with more than 255 results
+                focus = rng.sample(A.LABELS[:3], rng.choice([1, 1, 2]))
+                n_long = rng.randint(258, 300) if i == 120 else rng.randint(101, 130) if i % 83 == 7 else rng.randint(10, 40)
+                scene = A.gen_scene(rng, tie_heavy=(i % 12 == 1), n=n_long, labels=focus)
+                targets = focus + rng.sample([l for l in A.LABELS[:4] if l not in focus], rng.choice([0, 0, 1]))
+                rng.shuffle(targets)
+            thresholds = [A.threshold_for(rng, mode, zero=True) for _ in targets]
             n_gt_objs = sum(1 for r in scene["results"] if r["gt"] is not None)
             num_gt = rng.choice([n_gt_objs, n_gt_objs + rng.randint(0, 3), rng.randint(0, 3), 0])
             if i % 9 == 4 and mode in ("CENTERDISTANCE", "IOU2D"):
@@ -208,6 +216,12 @@ class ApCorr(Corr):
             d["results_without_matching_method"] += sum(1 for f in o["ap"]["facts"] if f["matching"] is None)
             d["with_fp_label_gt"] += any(f["gt_fp"] for f in o["ap"]["facts"])
             d["score_equals_threshold"] += any(f["thr"] is not None and f["matching"] and f["matching"]["value"] == f["thr"] for f in o["ap"]["facts"])
+            ranked = sum(1 for f in o["ap"]["facts"] if f["thr"] is not None)
+            for key, lo in (("rankings_of_10_or_more_counted_results", 10), ("rankings_of_more_than_100_counted_results", 101),
+                            ("rankings_of_more_than_255_results", 256)):
+                d[key] = d.get(key, 0) + ((n if lo == 256 else ranked) >= lo)
+            d["distance_threshold_exactly_0"] = d.get("distance_threshold_exactly_0", 0) + (not A.MAXIMIZE[c["mode"]] and 0 in c["thresholds"])
+            d["iou_threshold_exactly_0"] = d.get("iou_threshold_exactly_0", 0) + (A.MAXIMIZE[c["mode"]] and 0 in c["thresholds"])
         return d
 
 
@@ -225,7 +239,15 @@ class MapCorr(Corr):
             scene = A.gen_scene(rng, n=rng.randint(0, 18))
             k = rng.choice([1, 2, 3, 4])
             targets = rng.sample(A.LABELS[:4], k)
-            thresholds = [A.threshold_for(rng, mode) for _ in targets]
+            if i % 5 == 2:
+                # >= 10 results in ONE label's bucket, that label not first among >= 3 target labels
+                focus = rng.sample(A.LABELS[:3], rng.choice([1, 2]))
+                scene = A.gen_scene(rng, n=rng.randint(20, 45), labels=focus)
+                rest = [l for l in A.LABELS[:4] if l not in focus]
+                targets = rest[:rng.choice([1, 2])] + focus
+                if rng.random() < 0.5:
+                    rng.shuffle(targets)
+            thresholds = [A.threshold_for(rng, mode, zero=True) for _ in targets]
             extra_gt = [rng.choice(A.LABELS) for _ in range(rng.randint(0, 4))]
             c = {"scene": scene, "mode": mode, "targets": targets, "thresholds": thresholds, "extra_gt": extra_gt}
             if i % 4 == 1:
@@ -416,6 +438,11 @@ class MapCorr(Corr):
             d["n_targets"][k] = d["n_targets"].get(k, 0) + 1
             d["map_undefined"] += o["map"] is None
             d["some_label_undefined"] += any(a is None for a in o["aps"])
+            big = [l for l, ids in o["bucket_ids"].items() if len(ids) >= 10]
+            d["label_bucket_of_10_or_more_results"] = d.get("label_bucket_of_10_or_more_results", 0) + bool(big)
+            d["big_bucket_not_the_first_of_3_or_more_targets"] = d.get("big_bucket_not_the_first_of_3_or_more_targets", 0) + bool(
+                len(c["targets"]) >= 3 and big and c["targets"][0] not in big)
+            d["threshold_exactly_0"] = d.get("threshold_exactly_0", 0) + (0 in c["thresholds"])
         return d
 
 
@@ -423,7 +450,7 @@ class C04(Prop):
     id = "C04"
     props_file = "Props/C04.v"
     # redundant tie (core.gen_tie): these decision functions, translated from the source on every run, equal the hand model for all inputs
-    gen_tie_theorems = ['GenTie_is_result_correct', 'GenTie_is_label_correct', 'GenTie_get_label_threshold', 'GenTie_LabelThreshold_get_label_threshold', 'GenTie_interpolate_precision_recall_list', 'GenTie_interpolate_precision_recall_list_outside', 'GenTie__calculate_ap', 'GenTie__calculate_ap_outside', 'GenTie_get_precision_recall_list', 'GenTie_Ap__calculate_tp_fp', 'GenTie_Ap__calculate_tp_fp_outside']
+    gen_tie_theorems = ['GenTie_is_result_correct', 'GenTie_is_label_correct', 'GenTie_get_label_threshold', 'GenTie_LabelThreshold_get_label_threshold', 'GenTie_interpolate_precision_recall_list', 'GenTie_interpolate_precision_recall_list_outside', 'GenTie__calculate_ap', 'GenTie__calculate_ap_outside', 'GenTie_get_precision_recall_list', 'GenTie_Ap__calculate_tp_fp', 'GenTie_Ap__calculate_tp_fp_outside', 'GenTieSrc_C04_calculate_ap_is_all_point_interpolation']
     extra_props_files = ["Props/Pipeline.v"]     # the composed frame pipeline (C01 -> C10 -> C03 -> C04; C08 on it)
     design_ref = "DESIGN.md section 4, C04"
     technique = "Rocq proof (induction over rankings, telescoping + Abel summation over Q) about a hand model of Ap/Map; in-Coq correspondence with the real Ap/Map"
@@ -438,6 +465,9 @@ class C04(Prop):
                   "'#TP <= #GT' is a hypothesis here (it follows from C01/C03 for the frame pipeline).")
     rule = ("exhaustive: every ranking over {TP, TP with heading off by pi/2, FP, ignored} up to length 4 (quick) / 6 (thorough) x several GT counts; "
             "random: scenes of 0-14 (some 30-120) results on the k/8 lattice with confidence ties, FP-labelled and unknown GT, scores exactly on the threshold; "
+            "every sixth random scene ranks 10-40 results of one or two labels, three scenes 101-130 and one more than 255; distance thresholds of "
+            "exactly 0 next to the IoU threshold 0 (a threshold, not 'no threshold'); every fifth Map case has a label bucket of >= 10 results that is "
+            "not the first of >= 3 target labels; "
             "Map stream: every fourth case a 2D detection case (ROI objects, Map(is_detection_2d=True): AP only, no APH / mAPH; the same buckets through "
             "MetricsScore.evaluate_detection of a detection2d task: exactly one centre-distance and one IoU-2D Map although plane-distance / IoU-3D "
             "thresholds are configured); oracle: label compatibility (policy on the generated label names) and the label's threshold (index of the "
